@@ -1213,6 +1213,11 @@ Qed.
 Theorem list_fields_perm {V} (can : V -> bool) (l1 l2 : list (bytes * V)) : Permutation l1 l2 -> list_fields can l1 = list_fields can l2.
 Proof. intro Hp. unfold list_fields. apply sort_strings_perm. apply Permutation_map, filter_perm, Hp. Qed.
 
+(* checkDuplicateExports: the keys are sorted before the first duplicate is looked for *)
+Theorem check_duplicate_exports_perm {V} (pkg_exports : list (bytes * V)) k1 k2 :
+  Permutation k1 k2 -> check_duplicate_exports pkg_exports k1 = check_duplicate_exports pkg_exports k2.
+Proof. intro Hp. unfold check_duplicate_exports. rewrite (sort_strings_perm k1 k2 Hp). reflexivity. Qed.
+
 (* every one of these model functions RUN on two iteration orders of the same collection *)
 Definition loop_probes_statement : Prop :=
   let e := [([98], 2); ([97], 1); ([99], 3)] in
@@ -1234,7 +1239,9 @@ Definition loop_probes_statement : Prop :=
      = [([98], 2); ([99], 7)]
   /\ add_absent (fun np : bytes * N => if N.eqb (snd np) 0 then None else Some (snd np)) [([99], 3); ([97], 0); ([98], 2)] [([99], 7)]
      = [([98], 2); ([99], 7)]
-  /\ list_fields (fun v : N => N.ltb 1 v) e = [[98]; [99]] /\ list_fields (fun v : N => N.ltb 1 v) (rev e) = [[98]; [99]].
+  /\ list_fields (fun v : N => N.ltb 1 v) e = [[98]; [99]] /\ list_fields (fun v : N => N.ltb 1 v) (rev e) = [[98]; [99]]
+  /\ check_duplicate_exports e [[99]; [120]; [97]] = Some [97] /\ check_duplicate_exports e [[97]; [99]; [120]] = Some [97]
+  /\ check_duplicate_exports e [[121]; [120]] = None.
 Lemma loop_probes_compute : loop_probes_statement.
 Proof. unfold loop_probes_statement. cbv zeta. repeat split; vm_compute; reflexivity. Qed.
 
@@ -1269,6 +1276,8 @@ Definition model_order_sites : list ((string * string * string * string * string
         _ (@lint_all_perm bytes));
     (("protobuild", "packages.go", "Package.includeIO", "range-map", "summary.Exports"),
       Modelled "include_io" _ (@include_io_perm bytes));
+    (("protobuild", "packages.go", "Package.checkDuplicateExports", "maps.Keys", "file.Summary.Exports"),
+      Modelled "check_duplicate_exports (keys, sort.Strings, first name already exported)" _ (@check_duplicate_exports_perm bytes));
     (("protobuild", "packages.go", "PackageSet.findFileByPath", "maps.Keys", "pkg.Files"),
       Unobserved "the keys are joined into the text of a `file not found` error; found / not found is decided before"
         _ (@find_file_by_path_perm bytes));
@@ -1338,6 +1347,7 @@ Definition expected_bodies : list (okey * string * bool) :=
     (("protobuild", "linker.go", "markOptionImportsUsed", "proto.RangeExtensions", "opts"), "assign;assign;assign;if(cond){assign;return};return", false);
     (("protobuild", "lint.go", "LintAll", "range-map", "pkg.Files"), "assign;if(cond){return};if(cond){if(cond){assign;if(cond){return};return}else{return}}", false);
     (("protobuild", "packages.go", "Package.includeIO", "range-map", "summary.Exports"), "mapset", false);
+    (("protobuild", "packages.go", "Package.checkDuplicateExports", "maps.Keys", "file.Summary.Exports"), "assigned", true);
     (("protobuild", "packages.go", "PackageSet.findFileByPath", "maps.Keys", "pkg.Files"), "arg of strings.Join", false);
     (("protobuild", "packages.go", "PackageSet.resolveDependencies", "range-map", "deps"), "assign;if(cond){return};mapset", false);
     (("protobuild", "packages.go", "PackageSet.CompilePackage", "range-map", "pkg.Files"), "append", true);
@@ -1361,7 +1371,7 @@ Definition collected_keys_are_sorted : bool :=
   forallb (fun r => match r with ((p, f, fn, k, e), body, sorted) =>
      negb (String.eqb body "append" || String.eqb body "if(cond){append}" || String.eqb body "append;return"
            || String.eqb body "assign;assign;assign;assign;assign;append;return"
-           || (String.eqb body "assigned" && String.eqb fn "containerSet.listChildren")) || sorted end)
+           || (String.eqb body "assigned" && (String.eqb fn "containerSet.listChildren" || String.eqb fn "Package.checkDuplicateExports"))) || sorted end)
     MapRangeGen.bodies.
 Lemma collected_keys_sorted : collected_keys_are_sorted = true.
 Proof. vm_compute. reflexivity. Qed.
